@@ -391,4 +391,144 @@ theorem semAfter_placed (f : Func) (pre region post : List Instr) (sel endI : In
       simpa [parkedList] using rstep_sel_semAfter (f.body.length - 1) s A B sel pr hsel hs hd hb n hst hk)
   simpa using this
 
+/-! ### the same on an `else` (the construct is the arm; its `end` is the `end` of the `if`) -/
+
+theorem rstep_sel_exit_else (last : Nat) (s : RState) (A B : List Instr) (sel : Instr) (pr : List Tok) (hsel : OnlyExit sel pr)
+    (hs : Calm s) (hd : s.deleteBlock = none) (hb : s.body = A ++ sel :: B) (n : Nat) (hst : s.stack = List.range (n + 1))
+    (hk : sel.kind = .else_) :
+    let s' := rstep last s A.length sel
+    s'.entry = [] ∧ s'.exit = [] ∧ s'.onElseOrEnd = [] ∧ s'.onEndBefore = parkedList n (some pr)
+      ∧ s'.onEndAfter = parkedList n none ∧ s'.deleteBlock = none ∧ s'.stack = List.range (n + 1) ∧ s'.nlocals = s.nlocals
+      ∧ s'.added = s.added ∧ ∃ sel', s'.body = A ++ sel' :: B ∧ Clean sel' ∧ sel'.tok = sel.tok := by
+  have hne := isEmpty_false_of_ne hsel.ne
+  have hinstr : sel.hasInstr = true := by simp [Instr.hasInstr, hsel.blockExit, hne]
+  simp only [rstep, hs.entry, hs.exit, hk, hsel.blockAlt, hd, hb, hst, hs.e1, planSpecial, hinstr, hsel.blockEntry, hsel.blockExit,
+    hsel.semAfter, hne, hs.e2, getInj, setInj, top_range_succ, modifyAt_mid, parkedList,
+    List.isEmpty_nil, Bool.not_true, Bool.not_false, Bool.false_and, Bool.false_eq_true, if_false, if_true, Option.isNone_none,
+    Option.isSome_none, List.find?_nil, List.any_nil, List.nil_append]
+  refine ⟨?_, ?_, ?_, ?_, ?_, ?_, ?_, ?_, ?_, ⟨_, rfl, ⟨?_, ?_, ?_, ?_, ?_, ?_, ?_⟩, ?_⟩⟩ <;>
+    simp [hs.entry, hs.exit, hs.e1, hs.e2, hs.e3, hd, hsel.before, hsel.alt, hsel.after, hsel.semAfter, hsel.blockEntry, hsel.blockAlt]
+
+theorem rstep_sel_semAfter_else (last : Nat) (s : RState) (A B : List Instr) (sel : Instr) (pr : List Tok) (hsel : OnlySemAfter sel pr)
+    (hs : Calm s) (hd : s.deleteBlock = none) (hb : s.body = A ++ sel :: B) (n : Nat) (hst : s.stack = List.range (n + 1))
+    (hk : sel.kind = .else_) :
+    let s' := rstep last s A.length sel
+    s'.entry = [] ∧ s'.exit = [] ∧ s'.onElseOrEnd = [] ∧ s'.onEndBefore = parkedList n none
+      ∧ s'.onEndAfter = parkedList n (some pr) ∧ s'.deleteBlock = none ∧ s'.stack = List.range (n + 1) ∧ s'.nlocals = s.nlocals
+      ∧ s'.added = s.added ∧ ∃ sel', s'.body = A ++ sel' :: B ∧ Clean sel' ∧ sel'.tok = sel.tok := by
+  have hne := isEmpty_false_of_ne hsel.ne
+  have hinstr : sel.hasInstr = true := by simp [Instr.hasInstr, hsel.semAfter, hne]
+  simp only [rstep, hs.entry, hs.exit, hk, hsel.blockAlt, hd, hb, hst, hs.e1, planSpecial, hinstr, hsel.blockEntry, hsel.blockExit,
+    hsel.semAfter, hne, hs.e3, getInj, setInj, top_range_succ, modifyAt_mid, parkedList,
+    List.isEmpty_nil, Bool.not_true, Bool.not_false, Bool.false_and, Bool.false_eq_true, if_false, if_true, Option.isNone_none,
+    Option.isSome_none, List.find?_nil, List.any_nil, List.nil_append]
+  refine ⟨?_, ?_, ?_, ?_, ?_, ?_, ?_, ?_, ?_, ⟨_, rfl, ⟨?_, ?_, ?_, ?_, ?_, ?_, ?_⟩, ?_⟩⟩ <;>
+    simp [hs.entry, hs.exit, hs.e1, hs.e2, hs.e3, hd, hsel.before, hsel.alt, hsel.after, hsel.blockExit, hsel.blockEntry, hsel.blockAlt]
+
+/-- the core for an `else`: the stack is not pushed; the bodies wait for the `end` of the enclosing `if` (id `n`) -/
+theorem rloop_parked_region_else (last : Nat) (pre region post : List Instr) (sel endI : Instr) (tb ta : Option (List Tok)) (s0 : RState)
+    (hs0 : Calm s0) (hd0 : s0.deleteBlock = none) (hb0 : s0.body = pre ++ sel :: region ++ endI :: post)
+    (hst0 : s0.stack = List.range 1)
+    (hpre : ∀ x ∈ pre, Clean x) (hreg : ∀ x ∈ region, Clean x) (hend : Clean endI) (hpost : ∀ x ∈ post, Clean x) (hendk : endI.kind = .end_)
+    (n n2 : Nat) (hd1 : depthAfter pre 1 = some (n + 1)) (hd2 : depthAfter region 0 = some 0) (hd3 : depthAfter post n = some n2)
+    (hstep : ∀ (s : RState) (A B : List Instr), Calm s → s.deleteBlock = none → s.body = A ++ sel :: B → s.stack = List.range (n + 1) →
+      let s' := rstep last s A.length sel
+      s'.entry = [] ∧ s'.exit = [] ∧ s'.onElseOrEnd = [] ∧ s'.onEndBefore = parkedList n tb ∧ s'.onEndAfter = parkedList n ta
+        ∧ s'.deleteBlock = none ∧ s'.stack = List.range (n + 1) ∧ s'.nlocals = s.nlocals ∧ s'.added = s.added
+        ∧ ∃ sel', s'.body = A ++ sel' :: B ∧ Clean sel' ∧ sel'.tok = sel.tok) :
+    let s' := rloop last s0 0 (pre ++ sel :: region ++ endI :: post)
+    s'.nlocals = s0.nlocals ∧ s'.added = s0.added
+      ∧ ∃ sel' end', s'.body = pre ++ sel' :: region ++ end' :: post ∧ Clean sel' ∧ sel'.tok = sel.tok
+          ∧ end'.before = tb.getD [] ∧ end'.after = ta.getD [] ∧ end'.alt = none ∧ end'.tok = endI.tok := by
+  obtain ⟨a1, a2, a3, a4, a5, a6, _⟩ := rloop_quiet last pre s0 0 1 (n + 1) hpre hs0 hd0 hst0 hd1
+  have hb1 : (rloop last s0 0 pre).body = pre ++ sel :: (region ++ endI :: post) := by rw [a3, hb0]; simp
+  obtain ⟨c1, c2, c3, c4, c5, c6, c7, c8, c9, sel', c10, c11, c12⟩ := hstep _ pre (region ++ endI :: post) a1 a2 hb1 a4
+  have hpk : Parked n (rstep last (rloop last s0 0 pre) pre.length sel) := by
+    refine ⟨c1, c2, c3, ?_, ?_⟩
+    · rw [c4]; intro p hp; cases tb <;> simp [parkedList] at hp; subst hp; rfl
+    · rw [c5]; intro p hp; cases ta <;> simp [parkedList] at hp; subst hp; rfl
+  obtain ⟨e1, e2, e3, e4, e5, e6, e7, e8⟩ := rloop_parked last n region _ (pre.length + 1) 0 0 hreg hpk c6 (by simpa using c7) hd2
+  have hb3 : (rloop last (rstep last (rloop last s0 0 pre) pre.length sel) (pre.length + 1) region).body
+      = (pre ++ [sel'] ++ region) ++ endI :: post := by rw [e3, c10]; simp
+  have h4 := rstep_end_flush last _ (pre ++ [sel'] ++ region) post endI hend n e1.entry e1.exit e1.e1 tb ta
+    (by rw [e7, c4]) (by rw [e8, c5]) e2 hb3 (by simpa using e4) hendk
+  simp only [List.length_append, List.length_singleton] at h4
+  obtain ⟨g1, g2, g3, g4, g5, end', g6, g7, g8, g9, g10⟩ := h4
+  obtain ⟨k1, k2, k3, k4, k5, k6, _⟩ := rloop_quiet last post _ (pre.length + 1 + region.length + 1) n n2 hpost g1 g2 g3 hd3
+  have hsplit : pre ++ sel :: region ++ endI :: post = pre ++ ([sel] ++ (region ++ ([endI] ++ post))) := by simp
+  rw [hsplit, rloop_append, List.singleton_append, rloop, rloop_append, List.singleton_append, rloop]
+  simp only [Nat.zero_add]
+  refine ⟨?_, ?_, sel', end', ?_, c11, c12, g7, g8, g9, g10⟩
+  · rw [k5, g4, e5, c8, a5]
+  · rw [k6, g5, e6, c9, a6]
+  · rw [k3, g6]; simp
+
+/-- from what the resolver leaves (the probe as `before` / `after` code of the closing `end`) to the encoded function -/
+theorem lower_from_region (f : Func) (pre region post : List Instr) (sel endI : Instr) (tb ta : Option (List Tok))
+    (hbody : f.body = pre ++ sel :: region ++ endI :: post) (hpne : post ≠ [])
+    (hsp : f.hasSpecial = true) (hentry : f.entry = []) (hexit : f.exit = [])
+    (hpre : ∀ x ∈ pre, Clean x) (hreg : ∀ x ∈ region, Clean x) (hpost : ∀ x ∈ post, Clean x)
+    (hres : let s' := rloop (f.body.length - 1)
+              { body := pre ++ sel :: region ++ endI :: touchLast post hpne, entry := [], exit := [], nlocals := f.nlocals } 0
+              (pre ++ sel :: region ++ endI :: touchLast post hpne)
+      s'.added = 0 ∧ ∃ sel' end', s'.body = pre ++ sel' :: region ++ end' :: touchLast post hpne ∧ Clean sel' ∧ sel'.tok = sel.tok
+          ∧ end'.before = tb.getD [] ∧ end'.after = ta.getD [] ∧ end'.alt = none ∧ end'.tok = endI.tok) :
+    lower f = (toks pre ++ [sel.tok] ++ toks region ++ tb.getD [] ++ [endI.tok] ++ ta.getD [] ++ toks post, f.added) := by
+  have hplen : post.length ≥ 1 := List.length_pos_iff.mpr hpne
+  have hbody0 : modifyAt f.body (f.body.length - 1) (fun i => { i with mode := some .before })
+      = pre ++ sel :: region ++ endI :: touchLast post hpne := by
+    have : f.body = (pre ++ sel :: region ++ [endI]) ++ post := by rw [hbody]; simp
+    rw [this, modifyAt_last _ post hpne]; simp
+  obtain ⟨r2, sel', end', r3, r4, r5, r6, r7, r8, r9⟩ := hres
+  unfold lower resolveSpecial
+  simp only [hsp, Bool.not_true, Bool.false_eq_true, if_false, hexit, hentry, List.isEmpty_nil, if_true, hbody0]
+  simp only [emit, r3, r2]
+  refine Prod.ext ?_ (by simp)
+  simp only
+  have hL : (pre ++ sel' :: region ++ end' :: touchLast post hpne).length - 1 = pre.length + region.length + 1 + post.length := by
+    simp [touchLast_length]; omega
+  rw [hL]
+  have hsplit : pre ++ sel' :: region ++ end' :: touchLast post hpne
+      = pre ++ ([sel'] ++ (region ++ ([end'] ++ touchLast post hpne))) := by simp
+  rw [hsplit, emitFrom_append, emitFrom_append, emitFrom_append, emitFrom_append]
+  rw [emitFrom_clean _ pre _ hpre, emitFrom_clean _ _ _ (touchLast_clean post hpne hpost), touchLast_toks,
+    emitFrom_clean _ region _ hreg,
+    emitFrom_clean _ [sel'] _ (by intro x hx; simp at hx; subst hx; exact r4)]
+  have hnotend : ¬ (0 + pre.length + [sel'].length + region.length ≥ pre.length + region.length + 1 + post.length) := by
+    simp; omega
+  simp only [emitFrom, r6, r7, r8, r9, hnotend, if_false, toks, List.map_cons, List.map_nil, r5, List.append_nil]
+  simp [List.append_assoc]
+
+/-- **block exit on an `else`**: the probe sits in front of the `end` of the `if` -/
+theorem blockExit_placed_else (f : Func) (pre region post : List Instr) (sel endI : Instr) (pr : List Tok)
+    (hbody : f.body = pre ++ sel :: region ++ endI :: post) (hpne : post ≠ [])
+    (hsp : f.hasSpecial = true) (hentry : f.entry = []) (hexit : f.exit = [])
+    (hpre : ∀ x ∈ pre, Clean x) (hreg : ∀ x ∈ region, Clean x) (hend : Clean endI) (hpost : ∀ x ∈ post, Clean x)
+    (hsel : OnlyExit sel pr) (hk : sel.kind = .else_) (hendk : endI.kind = .end_)
+    (n n2 : Nat) (hd1 : depthAfter pre 1 = some (n + 1)) (hd2 : depthAfter region 0 = some 0) (hd3 : depthAfter post n = some n2) :
+    lower f = (toks pre ++ [sel.tok] ++ toks region ++ pr ++ [endI.tok] ++ toks post, f.added) := by
+  have hcore := rloop_parked_region_else (f.body.length - 1) pre region (touchLast post hpne) sel endI (some pr) none
+    { body := pre ++ sel :: region ++ endI :: touchLast post hpne, entry := [], exit := [], nlocals := f.nlocals }
+    ⟨rfl, rfl, rfl, rfl, rfl⟩ rfl rfl rfl hpre hreg hend (touchLast_clean post hpne hpost) hendk n n2 hd1 hd2
+    (by rw [touchLast_depth]; exact hd3)
+    (fun s A B hs hd hb hst => rstep_sel_exit_else (f.body.length - 1) s A B sel pr hsel hs hd hb n hst hk)
+  have := lower_from_region f pre region post sel endI (some pr) none hbody hpne hsp hentry hexit hpre hreg hpost ⟨hcore.2.1, hcore.2.2⟩
+  simpa using this
+
+/-- **semantic-after on an `else`**: the probe sits behind the `end` of the `if` -/
+theorem semAfter_placed_else (f : Func) (pre region post : List Instr) (sel endI : Instr) (pr : List Tok)
+    (hbody : f.body = pre ++ sel :: region ++ endI :: post) (hpne : post ≠ [])
+    (hsp : f.hasSpecial = true) (hentry : f.entry = []) (hexit : f.exit = [])
+    (hpre : ∀ x ∈ pre, Clean x) (hreg : ∀ x ∈ region, Clean x) (hend : Clean endI) (hpost : ∀ x ∈ post, Clean x)
+    (hsel : OnlySemAfter sel pr) (hk : sel.kind = .else_) (hendk : endI.kind = .end_)
+    (n n2 : Nat) (hd1 : depthAfter pre 1 = some (n + 1)) (hd2 : depthAfter region 0 = some 0) (hd3 : depthAfter post n = some n2) :
+    lower f = (toks pre ++ [sel.tok] ++ toks region ++ [endI.tok] ++ pr ++ toks post, f.added) := by
+  have hcore := rloop_parked_region_else (f.body.length - 1) pre region (touchLast post hpne) sel endI none (some pr)
+    { body := pre ++ sel :: region ++ endI :: touchLast post hpne, entry := [], exit := [], nlocals := f.nlocals }
+    ⟨rfl, rfl, rfl, rfl, rfl⟩ rfl rfl rfl hpre hreg hend (touchLast_clean post hpne hpost) hendk n n2 hd1 hd2
+    (by rw [touchLast_depth]; exact hd3)
+    (fun s A B hs hd hb hst => rstep_sel_semAfter_else (f.body.length - 1) s A B sel pr hsel hs hd hb n hst hk)
+  have := lower_from_region f pre region post sel endI none (some pr) hbody hpne hsp hentry hexit hpre hreg hpost ⟨hcore.2.1, hcore.2.2⟩
+  simpa using this
+
 end Orca.Lower
